@@ -103,6 +103,77 @@ def ops_source():
     return "\n".join(L)
 
 
+# ---- a double CONSTANT combined with an untyped operand (Optimize.c: PyFloatBinop fast paths for exact float / int
+#      operands, zero-division tests, fallback to the generic number protocol)
+OC_CONSTS = ["1.5", "-2.25", "0.0", "2.0", "1e300", "0.5"]
+OC_OPS = [("add", "+"), ("sub", "-"), ("mul", "*"), ("tdiv", "/"), ("fdiv", "//"), ("mod", "%"), ("eq", "=="), ("ne", "!="),
+          ("lt", "<"), ("ge", ">=")]
+OC_ARGS = ["0", "1", "-1", "7", "2**30", "-2**30", "2**53 + 1", "2**62", "2**70", "-2**70", "10**400", "True", "False",
+           "0.0", "-0.0", "1.5", "-2.25", "float('inf')", "float('-inf')", "float('nan')", "5e-324", "None", "'s'", "1j",
+           "Fraction(1, 2)", "Fraction(0)", "Dec('0')"]
+
+
+def objconst_source():
+    L = ["# cython: language_level=3", ""]
+    for ci, c in enumerate(OC_CONSTS):
+        for nm, sym in OC_OPS:
+            L += ["def oc_%s_l%d(x):" % (nm, ci), "    return %s %s x" % (c, sym), "",
+                  "def oc_%s_r%d(x):" % (nm, ci), "    return x %s %s" % (sym, c), "",
+                  "def oc_%s_i%d(x):" % (nm, ci), "    x %s= %s" % (sym, c) if nm not in ("eq", "ne", "lt", "ge") else "    pass",
+                  "    return x", ""]
+    return "\n".join(L)
+
+
+OC_WORKER = r"""
+import sys, json, math
+from fractions import Fraction
+from decimal import Decimal as Dec
+import c06oc
+spec = json.load(sys.stdin)
+def canon(v):
+    if isinstance(v, float):
+        return "float:" + (v.hex() if v == v else "nan")
+    return type(v).__name__ + ":" + repr(v)
+out = []
+for fn, arg, pyexpr in spec:
+    x = eval(arg)
+    try:
+        g = canon(getattr(c06oc, fn)(x))
+    except BaseException as e:
+        g = "EXC:" + type(e).__name__
+    x = eval(arg)
+    try:
+        e_ = canon(eval(pyexpr, {"x": x}))
+    except BaseException as e:
+        e_ = "EXC:" + type(e).__name__
+    out.append([g, e_])
+print(json.dumps(out))
+"""
+
+
+def run_objconst(ctx, quick):
+    cases = []
+    for ci, c in enumerate(OC_CONSTS):
+        for nm, sym in OC_OPS:
+            for a in OC_ARGS:
+                cases.append(("oc_%s_l%d" % (nm, ci), a, "%s %s x" % (c, sym)))
+                cases.append(("oc_%s_r%d" % (nm, ci), a, "x %s %s" % (sym, c)))
+                if nm not in ("eq", "ne", "lt", "ge"):
+                    cases.append(("oc_%s_i%d" % (nm, ci), a, "x %s %s" % (sym, c)))
+    if quick:
+        cases = [c for i, c in enumerate(cases) if i % 3 == ctx.rng.randrange(3) or "0" == c[1] or c[1] in ("0.0", "-0.0", "False")]
+    res = cybuild.run_script(OC_WORKER, ctx.workdir, stdin_obj=cases, timeout=900)
+    if res["json"] is None:
+        ctx.corr_break("objconst worker", "c06oc", "rc=%s %s" % (res["rc"], (res["err"] or "")[-600:]), "worker runs")
+        return
+    for (fn, a, expr), (g, e_) in zip(cases, res["json"]):
+        inp = {"function": fn, "x": a, "python": expr}
+        ctx.case("objconst/%s" % fn.split("_")[1], inp, sig=(fn, a))
+        if g != e_:
+            zero = a in ("0", "0.0", "-0.0", "False", "Fraction(0)", "Dec('0')")
+            ctx.fail("float_constant_binop_%s" % ("zero_operand" if zero else "wrong_result"), inp, g, e_)
+
+
 def rand_double(rng):
     k = rng.random()
     if k < 0.35:
@@ -575,15 +646,16 @@ def asan_calls(workdir, strs):
 def build_all(ctx):
     specs = [dict(name="c06ops", source=ops_source(), workdir=ctx.workdir),
              dict(name="c06str", source=STR_SRC, workdir=ctx.workdir),
+             dict(name="c06oc", source=objconst_source(), workdir=ctx.workdir, cflags=["-O0"]),
              dict(name="c06asan", source=STR_SRC, workdir=os.path.join(ctx.workdir, "asan"),
                   cflags=["-O1", "-g", "-fsanitize=address", "-fno-omit-frame-pointer"])]
-    built = cybuild.build_many(specs, jobs=3)
+    built = cybuild.build_many(specs, jobs=4)
     ok = True
-    for (so, err), sp in list(zip(built, specs))[:2]:
+    for (so, err), sp in list(zip(built, specs))[:3]:
         if err is not None:
             ctx.corr_break("build " + sp["name"], sp["name"], str(err)[:1500], "module builds")
             ok = False
-    asan_ok = built[2][1] is None and os.path.exists(ASAN_LIB)
+    asan_ok = built[3][1] is None and os.path.exists(ASAN_LIB)
     return ok, asan_ok
 
 
@@ -597,6 +669,7 @@ def run(ctx):
     run_doubles(ctx, quick)
     t1 = time.time()
     run_strings(ctx, quick, asan_ok)
+    run_objconst(ctx, quick)
     ctx.note("wall: doubles %.1fs, strings+asan %.1fs" % (t1 - t0, time.time() - t1))
 
 
